@@ -26,3 +26,4 @@ def rules(ctx):
     S.free_verdict_rules(ctx)
     S.replaced_range_rules(ctx)
     S.survey_residue_rules(ctx)
+    S.restore_commit_rules(ctx)
